@@ -755,11 +755,11 @@ def _one(C, tmp, ctx, text, update, remove, lines, pending, origin):
     if "text" in r.rec:
         lines.append(edit_line("cp2kupdate", r.rec["text"], update, remove))
         pending.append(({"fn": "update_cp2k_input", "template(observed sibling order)": r.rec["text"],
-                         "update": update, "remove": remove}, r.answer()))
+                         "update": enc_update(update), "remove": remove}, r.answer()))
     if r2 is not None and "text" in r2.rec:
         lines.append(edit_line("cp2kupdate", r2.rec["text"], update, remove))
         pending.append(({"fn": "update_cp2k_input(second application)", "template(observed sibling order)": r2.rec["text"],
-                         "update": update, "remove": remove}, r2.answer()))
+                         "update": enc_update(update), "remove": remove}, r2.answer()))
     return r
 
 
